@@ -1,11 +1,45 @@
+B3 = 'operand strings <= 3 bytes over the full byte range; positions/amounts full 64-bit'
+B2 = 'operand strings <= 2 bytes over the full byte range; positions/amounts full 64-bit'
+def ob(fn, unwind=8, timeout=300, bounds=B3, claim='', **kw):
+    d = {'fn': fn, 'unwind': unwind, 'timeout': timeout, 'bounds': bounds, 'claim': claim}
+    d.update(kw)
+    return d
+L2 = ['-DMAXL=2']
+L1 = ['-DMAXL=1']
+B1 = 'operand strings <= 1 byte over the full byte range'
 SPEC = {
     'property': 'C13',
-    'functions_of_interest': ['SimpleString'],
+    'functions_of_interest': ['SimpleString', 'StringFrom', 'HexString'],
+    'assumptions': ['string allocator = recording allocator over the fixed-capacity CBMC heap model with requested-size red zones (ll2c --heapcheck)',
+                    'vsnprintf: class-operation harnesses use the faithful integer/string model of engine/rt/env.c; formatter harnesses use a recording contract stub (decimal digit generation is libc, not CppUTest; %g is outside the claim)'],
     'groups': [{
-        'name': 'prim', 'wrapper': 'w13.cpp', 'harness': 'h13.c',
-        'config': {},
+        'name': 'str', 'wrapper': 'w13.cpp', 'harness': 'h13.c', 'config': {},
         'obligations': [
-            {'fn': 'harness_strstr', 'unwind': 6, 'timeout': 120, 'bounds': 'strings <= 3 bytes, full byte range', 'claim': 'StrStr == textbook first occurrence; no out-of-bounds access'},
+            ob('harness_strstr', claim='StrStr == first occurrence'),
+            ob('harness_strcmp_len'), ob('harness_strncmp'), ob('harness_strncpy'), ob('harness_memcmp'),
+            ob('harness_atou_atoi', bounds='4-byte strings, full byte range'),
+            ob('harness_ctor_copy'), ob('harness_repeat', unwind=12), ob('harness_concat_append'), ob('harness_compare_ops'),
+            ob('harness_count', tier='thorough', timeout=900), ob('harness_count', defines=L2, bounds=B2, tier='quick'),
+            ob('harness_split', defines=L2, bounds=B2, tier='thorough', timeout=3600), ob('harness_split', defines=L1, bounds=B1, tier='quick', timeout=600),
+            ob('harness_replace_char'),
+            ob('harness_replace', tier='thorough', timeout=1800), ob('harness_replace', defines=L2, bounds=B2, tier='quick'),
+            ob('harness_replace_twice', defines=L2, bounds=B2, tier='thorough', timeout=3600), ob('harness_replace_twice', defines=L1, bounds=B1, tier='quick', timeout=600),
+            ob('harness_lower'),
+            ob('harness_printable', unwind=16, defines=L2, bounds=B2, tier='thorough', timeout=3600), ob('harness_printable', unwind=16, defines=L1, bounds=B1, tier='quick', timeout=600),
+            ob('harness_substring'), ob('harness_find_at'),
+            ob('harness_fromtill'), ob('harness_copytobuffer'),
+            ob('harness_pad', defines=L2, bounds=B2, tier='thorough', timeout=3600), ob('harness_pad', defines=L1, bounds=B1, tier='quick', timeout=600),
+        ],
+    }, {
+        'name': 'fmt', 'wrapper': 'w13.cpp', 'harness': 'h13f.c', 'config': {},
+        'obligations': [
+            ob('harness_from_int', unwind=20, bounds='all 64-bit values, 6 integer overloads'),
+            ob('harness_from_misc', unwind=20, defines=L1, bounds=B1, timeout=600), ob('harness_from_misc', unwind=20, defines=L2, bounds=B2, tier='thorough', timeout=3600),
+        ] + [ob('harness_hex', unwind=26, defines=['-DHEXKIND=%d' % k], bounds='all 64-bit values, overload #%d of 12' % k) for k in range(12)] + [
+            ob('harness_binary', unwind=40, bounds='blocks <= 3 bytes', tier='thorough', timeout=3600), ob('harness_binary', unwind=40, defines=['-DBINMAX=1'], bounds='blocks <= 1 byte', tier='thorough', timeout=3600),
+            ob('harness_masked', unwind=20, bounds='byteCount in {1,2}, all values and masks', tier='thorough', timeout=3600), ob('harness_masked', unwind=12, defines=['-DMASKED_ONE'], bounds='byteCount 1, all values and masks', timeout=600),
+            ob('harness_masked', unwind=70, defines=['-DMASKED_FULL', '-DENV_MALLOC_CAP=128'], bounds='all byteCount values incl. > sizeof(long), all values and masks', tier='thorough', timeout=1800),
+            ob('harness_ordinal', unwind=12, bounds='all 32-bit values'), ob('harness_format_sd', unwind=16),
         ],
     }],
 }
